@@ -333,3 +333,9 @@ def run(F, rep):
         'C11.D1|Units::clone|setImportSource(importSource())': 'clones share their import source with the original (known finding of C11); under C06 this is covered by origin SRC in C06.P1: flattening never writes an import source',
     }
     c11.run(F, core.Borrowed(rep, exempt=exempt))
+
+    # ------------------------------------------------------------------ A: flags gathered over loops
+    from engines import rule_accumulators
+    rule_accumulators(F, rep, 'C06.A2', lambda g: g.file.endswith('/utilities.cpp') and 'ink' not in g.name, 1, 'the renaming helpers of utilities.cpp', 'whether the math of a component was modified (and must be written back) must not depend on the last cn element')
+
+
